@@ -111,6 +111,7 @@ func (r *run) newConn() *fakenet.Conn {
 	if r.cell.Stream && r.cell.Seed%2 == 0 {
 		c.Coalesce = true // one Read may return several replies at once, as TCP does
 	}
+	c.ErrWithData = r.cell.Stream // set before the connection is in use
 	cs := &connState{trans: map[int]int{}}
 	if r.cell.After != "open" {
 		r.mu.Lock()
@@ -232,7 +233,21 @@ func (r *run) onWrite(c *fakenet.Conn, data []byte) error {
 			c.Inject(make([]byte, 1+int(r.cell.Seed+int64(n))%11))
 			rep.Count("runt_datagrams_injected_before_reply", 1)
 		}
-		id := c.Inject(msg)
+		// a third of the kills deliver the error in the same Read call as the last
+		// bytes of the reply (io.Reader allows n > 0 with err != nil; crypto/tls does
+		// it for a close_notify that follows the data): the reply still arrived
+		together := kill && c.Stream && (r.cell.Seed+int64(n))%3 == 1 // (datagram sockets never return data together with an error)
+		var id int64
+		if together {
+			kerr := error(fakenet.ErrInjected)
+			if r.cell.After == "eof" {
+				kerr = io.EOF
+			}
+			id = c.InjectWithErr(msg, kerr)
+			rep.Count("replies_delivered_together_with_the_read_error", 1)
+		} else {
+			id = c.Inject(msg)
+		}
 		r.mu.Lock()
 		r.injK[injKey{c, id}] = &injRec{cl: cl, tok: tok}
 		r.mu.Unlock()
@@ -242,7 +257,9 @@ func (r *run) onWrite(c *fakenet.Conn, data []byte) error {
 		}
 		if kill {
 			cs.killed = true
-			if r.cell.After == "eof" {
+			if together {
+				// already queued
+			} else if r.cell.After == "eof" {
 				c.InjectEOF()
 			} else {
 				c.InjectErr(fakenet.ErrInjected)
@@ -602,7 +619,12 @@ func runStaleIdle(seed int64, rounds int) {
 			rep.Count("stale_idle_rounds_not_judged", 1)
 		case errB != nil:
 			rep.Violation("healthy-conn-closed-reply-in-time-reuse", fmt.Sprintf("the peer answered the query 150 ms after it was sent (deadline 4 s away) but the exchange failed: %v", errB), wit)
-		case wB != 1 || len(conns) != 1:
+		case wB == 1 && len(conns) != 1:
+			// B was written once, on a new connection: the 40 ms idle timeout of the first
+			// connection ran out before B was sent (a descheduled caller on a loaded
+			// machine) - legitimate, and not the window this scenario is after
+			rep.Count("stale_idle_rounds_not_judged", 1)
+		case wB != 1:
 			rep.Violation("query-resent-although-reply-in-time-reuse", fmt.Sprintf("the peer answers every query within 150 ms on a healthy connection, yet the query was written %d times over %d connection(s): the transport closed the connection under the waiting query", wB, len(conns)), wit)
 		default:
 			rep.Count("stale_idle_rounds_ok", 1)
